@@ -53,8 +53,16 @@ def gf2_mc(tier):
     return [mcjob('MC_GF2', workers=16, timeout=1200)]
 
 
-def alg(jobs, reasons=ALG_REASONS):
-    return dict(level='model_checking', reasons=reasons, jobs=jobs, mc=gf2_mc, assumptions=GEN_ASSUME)
+def words_mc(*cfgs):
+    """MC_GF2 plus the word-level masking model (alg/MzdWords.tla) for the given configurations"""
+    def f(tier):
+        return gf2_mc(tier) + [mcjob('MC_MzdWords', c, workers=16, timeout=2400) for c in cfgs] + \
+            ([mcjob('MC_MzdWords', 'MC_MzdWords_full', workers=16, timeout=7000, xmx='16g')] if tier == 'thorough' and 'MC_MzdWords_c08_w3' in cfgs else [])
+    return f
+
+
+def alg(jobs, reasons=ALG_REASONS, mc=None):
+    return dict(level='model_checking', reasons=reasons, jobs=jobs, mc=mc or gf2_mc, assumptions=GEN_ASSUME)
 
 
 ALL_FAMS = [('mul', 480), ('move', 800), ('rowops', 640), ('obs', 640), ('elim', 320), ('ple', 240), ('trsm', 240), ('inv', 160), ('solve', 240), ('kernel', 160)]
@@ -364,7 +372,7 @@ PROPS = {
                 prepare=c14_prepare, jobs=c14_jobs, mc=c14_mc,
                 assumptions=['the link-time malloc/free wrappers see every heap call of the m4ri objects', 'header-cache geometry (64 headers per block) is a constant of the code',
                              'random histories are sampled; generated histories are exhaustive up to the stated depth for the reduced-capacity build']),
-    'C09': dict(level='model_checking', reasons=ALG_REASONS | {'padding'}, jobs=views_jobs, mc=lambda tier: [], assumptions=GEN_ASSUME + [
+    'C09': dict(level='model_checking', reasons=ALG_REASONS | {'padding'}, jobs=views_jobs, mc=lambda tier: [mcjob('MC_MzdWords', c, workers=16, timeout=2400) for c in ('MC_MzdWords_c08_w3', 'MC_MzdWords_c13_w3')], assumptions=GEN_ASSUME + [
         'window placements are sampled from the classes row offset {0,1,5} x word offset {0,1,2,3} x parent wider by {0,1,17,64,65,130} columns x rows below or not']),
     'C02': alg(simple_jobs('elim', 640)),
     'C03': alg(simple_jobs('ple', 480, qshards=12)),
@@ -372,9 +380,9 @@ PROPS = {
     'C05': alg(simple_jobs('inv', 320)),
     'C06': alg(simple_jobs('solve', 480)),
     'C07': alg(simple_jobs('kernel', 320)),
-    'C08': alg(simple_jobs('move', 1600)),
-    'C13': alg(simple_jobs('rowops', 1200)),
-    'C17': alg(simple_jobs('obs', 1600)),
+    'C08': alg(simple_jobs('move', 1600), mc=words_mc('MC_MzdWords_c08_w3')),
+    'C13': alg(simple_jobs('rowops', 1200), mc=words_mc('MC_MzdWords_c13_w3')),
+    'C17': alg(simple_jobs('obs', 1600), mc=words_mc('MC_MzdWords_c17_w2')),
     'C01': dict(level='model_checking', reasons=ALG_REASONS, jobs=c01_jobs, mc=gf2_mc,
                 assumptions=['TLC evaluates GF2.tla operators correctly (checked against declarative twins by MC_GF2)',
                              'the harness logs the raw memory of operands truthfully (memcmp snapshots)',
